@@ -195,6 +195,33 @@ class Grid3Scales(Grid):
             2 * ratioPointsWall * tailLengthOutside - wallThickness * (1 + 2 * smoothing)
         )
 
+    def compactify(
+            self,
+            z: np.ndarray, # pylint: disable=invalid-name
+            pz: np.ndarray, # pylint: disable=invalid-name
+            pp: np.ndarray, # pylint: disable=invalid-name
+            ) -> tuple[np.ndarray, ...]:
+        r"""
+        Transforms coordinates to [-1, 1] interval (inverse of decompactify).
+        The three-scale position mapping has no closed-form inverse. Since it is
+        strictly increasing, it is inverted numerically by bisection.
+        """
+        _, pzCompact, ppCompact = super().compactify(z, pz, pp)
+
+        zPhysical = np.asarray(z, dtype=float)
+        zero = np.zeros_like(zPhysical)
+        lower = -np.ones_like(zPhysical)
+        upper = np.ones_like(zPhysical)
+        # 64 bisections of [-1, 1] reach the resolution of double precision
+        for _ in range(64):
+            middle = (lower + upper) / 2
+            isBelow = self.decompactify(middle, zero, zero)[0] < zPhysical
+            lower = np.where(isBelow, middle, lower)
+            upper = np.where(isBelow, upper, middle)
+        zCompact = (lower + upper) / 2
+
+        return zCompact, pzCompact, ppCompact
+
     def decompactify(
             self,
             zCompact: np.ndarray,
